@@ -8,15 +8,15 @@ RE_REJ = re.compile(r'<<\s*"REJECT",\s*(\d+),\s*"(C\d+):([^"]*)",\s*(\d+)\s*>>')
 PROFILES_FOR = {
     "C01": ["wait"],
     "C04": ["soup", "soupfix", "contend", "wait", "mix", "res", "end"],
-    "C05": ["soup", "contend", "res", "mix", "end"],
-    "C06": ["soup", "order", "condorder", "contend", "res", "pool", "buf", "queue", "cond"],
-    "C07": ["soup", "contend", "pool", "mix", "rec"],
+    "C05": ["soup", "soupfix2", "contend", "res", "mix", "end"],
+    "C06": ["soup", "soupfix2", "order", "condorder", "contend", "res", "pool", "buf", "queue", "cond"],
+    "C07": ["soup", "soupfix2", "contend", "pool", "mix", "rec"],
     "C08": ["soup", "soupfix", "contend", "res", "pool", "buf", "queue", "mix", "end"],
     "C09": ["soup", "soupfix", "end", "wait", "mix"],
-    "C11": ["soup", "contend", "buf", "mix", "rec"],
-    "C12": ["soup", "contend", "queue", "mix", "rec"],
+    "C11": ["soup", "soupfix2", "contend", "buf", "mix", "rec"],
+    "C12": ["soup", "soupfix2", "contend", "queue", "mix", "rec"],
     "C13": ["soup", "soupfix", "condmany", "condorder", "cond", "mix"],
-    "C14": ["soup", "rec", "longrec"],
+    "C14": ["soup", "soupfix2", "rec", "longrec"],
 }
 
 
@@ -185,7 +185,7 @@ def kernel_part(pid, tier, replay, v):
             txt = program_text(tp, r["prog"])
             rp = vlib.save_replay(pid, "viol_%s_%s_%d.txt" % (r["rule"][:40], vn, r["prog"]), txt)
             v.violation("%s|%s" % (pid, r["rule"]), rp, "%s program %d, trace line %d of %s" % (desc, r["prog"], r["line"], tp))
-        if (desc.startswith("TLC-exported programs ") or desc == "random soupfix") and vn == "rel" and not replay:
+        if (desc.startswith("TLC-exported programs ") or desc in ("random soupfix", "random soupfix2")) and vn == "rel" and not replay:
             # does the real code take, event for event, the path the model predicts for these programs?
             # (soupfix: random programs of a fixed shape, far longer than TLC explores, under the constants of CONFIGS["soupfix"])
             import checks.kmodel as kmodel
